@@ -166,9 +166,10 @@ def eval_tree(seq_py, seq_js, bare=None):
     n_listed = sum(len(v) for v in want_rows.values())
     outcomes = []
     with harness.temp_tree(files) as root, harness.cwd(root):
-        for paths in ([Path(".")], [Path("a.py"), Path("b.js")]):
+        for paths in ([Path(".")], [Path("a.py"), Path("b.js")], [Path("."), Path("a.py")], [Path("a.py"), Path("b.js"), Path("a.py")]):
+            overlap = len(paths) >= 2 and paths.count(Path("a.py")) + (1 if Path(".") in paths else 0) >= 2
             for quiet in (False, True):
-                sig = {"paths": "dir" if len(paths) == 1 else "files", "quiet": quiet}
+                sig = {"paths": "dir" if len(paths) == 1 else ("dir+file" if overlap else "files"), "quiet": quiet}
                 code, text, exc = harness.run_cli_function(check_command, list(paths), quiet)
                 if exc is not None:
                     out.append(("check-raised", dict(sig, error=type(exc).__name__), repr(exc)))
@@ -187,6 +188,14 @@ def eval_tree(seq_py, seq_js, bare=None):
                 extra = [r for r in rows if r[0] not in want_rows]
                 if extra:
                     out.append(("listing-wrong", dict(sig, what="unknown-file"), repr(extra[:3])))
+                if overlap:
+                    # a.py is reached twice: it is listed once per visit, and the summary counts what is listed
+                    n_rows = len(rows)
+                    if sorted(set(got["a.py"])) != sorted(set(want_rows["a.py"])) or sorted(set(got["b.js"])) != sorted(set(want_rows["b.js"])):
+                        out.append(("listing-wrong", dict(sig, what="set-or-fields"), f"listed {got}, expected every function over 30 of {want_rows}"))
+                    if summary is None or summary[1] != n_rows or summary[0] != 3 or len(got["a.py"]) != 2 * len(want_rows["a.py"]):
+                        out.append(("summary-count-wrong", sig, f"summary {summary} but {n_rows} functions are listed over 3 file visits"))
+                    continue
                 for f in want_rows:
                     if got[f] != want_rows[f]:
                         what = "order" if sorted(got[f]) == sorted(want_rows[f]) else "set-or-fields"
